@@ -37,7 +37,7 @@ func (propC11) Plan(tier string) (int, int) {
 // larger-then-smaller, codec alternation.
 func genHistory(r *RNG, n int) []Op {
 	var ops []Op
-	baseW, baseH := r.Pick(8, 16, 17, 31, 32, 33, 48, 64), r.Pick(8, 16, 17, 32, 49, 50, 64, 65, 80)
+	baseW, baseH := r.Pick(8, 16, 17, 31, 32, 33, 48, 49, 64, 80), r.Pick(8, 16, 17, 32, 48, 49, 50, 64, 65, 80)
 	for i := 0; i < n; i++ {
 		var op Op
 		switch r.Intn(10) {
@@ -69,6 +69,29 @@ func genHistory(r *RNG, n int) []Op {
 			}
 			if op.Img.H < 1 {
 				op.Img.H = 1
+			}
+		}
+		if r.Pct(35) && i > 0 && ops[len(ops)-1].Kind == "enc" && !ops[len(ops)-1].Opt.Lossless {
+			// the same lossy options as the previous call (so that option-gated scratch
+			// state such as segment smoothing or dithering is exercised twice in a row), on
+			// another picture with the same macroblock grid
+			prev := ops[len(ops)-1]
+			op.Kind = "enc"
+			op.Opt = prev.Opt
+			if r.Bool() {
+				op.Opt.Preprocessing = r.Pick(1, 2, 3)
+				ops[len(ops)-1].Opt.Preprocessing = op.Opt.Preprocessing
+			}
+			op.Img.W = (prev.Img.W+15)/16*16 - r.Intn(16)
+			op.Img.H = (prev.Img.H+15)/16*16 - r.Intn(16)
+			if op.Img.W < 1 {
+				op.Img.W = 1
+			}
+			if op.Img.H < 1 {
+				op.Img.H = 1
+			}
+			if r.Bool() {
+				op.Img.Alpha = "opaque"
 			}
 		}
 		if r.Pct(25) && i > 0 {
